@@ -444,11 +444,18 @@ class C02(Check):
         self.bump('sim', 'bytes', sf.pos if sf else 0)
         log.add('detect', out, sf.reads if sf else None, fired)
         if sf is not None and sf.closed < 1:
-            self.viol('file_left_open', where='detect_file_format')
+            # resource hygiene, not part of the statement: probe only
+            self.bump('probes', 'file_left_open')
+        ndata = len(data)
         if fired:
-            if insp is not None:
-                self.viol('read_error_swallowed', result=out)
-            return ['detect', 'eio']
+            if insp is None:
+                return ['detect', 'eio']
+            # the read error was swallowed and a verdict produced from what
+            # had been read so far: whatever it is, it must not be an
+            # acceptance of a stream that was not captured completely
+            self.bump('probes', 'read_error_swallowed')
+            ndata = sf.pos
+            label = 'none'
         if out.startswith('EXC:'):
             self.viol('detect_raised_other', exc=out, inspector=info['fmt'])
             return ['detect', out]
@@ -458,7 +465,7 @@ class C02(Check):
             if out == info['fmt']:
                 self.judge(res, imgsim.q_attr(insp, 'complete'),
                            imgsim.q_attr(insp, 'format_match'), label, case,
-                           info, len(data), 'detect_file_format')
+                           info, ndata, 'detect_file_format')
             else:
                 self._structural(insp, out, 'detect-other')
                 if res == 'pass' and label == 'reject' and out != 'raw':
@@ -551,8 +558,8 @@ class C02(Check):
                               inspector=info['fmt'], detected=fmt)
                 if case.get('verbose') and \
                         'SAFETY_CHECK_PASSED=True' not in outtxt:
-                    self.viol('cli_exit0_but_reports_unsafe',
-                              output=outtxt[:300])
+                    # the wording of the report is not part of the statement
+                    self.bump('probes', 'cli_exit0_report_wording_differs')
         return ['cli', f['path'], bool(f.get('short')), bool(f.get('fault')),
                 bool(case.get('subprocess'))]
 
